@@ -69,8 +69,36 @@ def probe_frame(rng, obj, X, mode):
 MODES = ["inside", "inside", "nan", "unseen", "mixed", "all_unseen", "empty", "one", "missing_col", "train"]
 
 
-def check_probe(drv, obj, Xn, mode):
+def rejection_justified(obj, Xn, markers):
+    """does the frame give transform a reason the property allows for an AssertionError: an unseen category of a feature
+    without default group, or a missing value in a feature that had none at fit?  `markers` = (str_nan, str_default) of the
+    object as it was fitted (a reloaded object must still know them)."""
+    str_nan, str_default = markers
+    for raw, casts in obj.features_casting.items():
+        if raw not in Xn.columns:
+            return True
+        col = Xn[raw]
+        for f in casts:
+            if f not in obj.values_orders:
+                continue
+            vals = list(obj.values_orders[f].values())
+            if bool(col.isna().any()) and not (str_nan is not None and str_nan in vals):
+                return True
+            if f in obj.qualitative_features:
+                unseen = [v for v in col.dropna().tolist() if v not in vals]
+                if unseen and not (str_default is not None and str_default in vals):
+                    return True
+            else:
+                if any(isinstance(v, str) for v in col.dropna().tolist()):
+                    return True
+    return False
+
+
+def check_probe(drv, obj, Xn, mode, markers=None):
     fails, out, err, msg, Xt = fitgen.compare_transform(drv, obj, Xn, f" (probe frame '{mode}')")
+    if err == "AssertionError" and mode != "missing_col" and markers is not None and not rejection_justified(obj, Xn, markers):
+        fails.append({"kind": "property", "what": f"transform rejected a frame although every unseen category has a default group and no "
+                      f"missing value is unexpected (probe '{mode}')", "error": msg[:300]})
     # the judge, on the implementation alone
     if mode == "missing_col":
         # outside C05's quantifier ("new DataFrames having the fitted columns"): correspondence only
@@ -117,6 +145,7 @@ def worker(args):
                 stats["na"] += 1; continue
             stats["objects"] += 1
             stats["classes"][r["meta"]["class"]] = stats["classes"].get(r["meta"]["class"], 0) + 1
+            markers = (obj.str_nan, obj.str_default)
             if rng.random() < 0.3:
                 # the same object rebuilt from its JSON export (load_carver / load_discretizer): unseen data must be treated
                 # the same way (default group, rejections)
@@ -127,7 +156,7 @@ def worker(args):
                     pass
             for mode in rng.sample(MODES, 4):
                 Xn = X.copy() if mode == "train" else probe_frame(rng, obj, X, mode)
-                fs, err = check_probe(drv, obj, Xn, mode)
+                fs, err = check_probe(drv, obj, Xn, mode, markers)
                 stats["cases"] += 1
                 stats["modes"][mode] = stats["modes"].get(mode, 0) + 1
                 stats["outcomes"][err or "ok"] = stats["outcomes"].get(err or "ok", 0) + 1
